@@ -43,10 +43,7 @@ func structOK(q *pb.QuoteV4) bool {
 		return false
 	}
 	cp := proto.Clone(q).(*pb.QuoteV4)
-	// structural validity does not involve the two unchecked size fields nor the report data length
-	if cp.TdQuoteBody != nil {
-		cp.TdQuoteBody.ReportData = make([]byte, 64)
-	}
+	// structural validity does not involve the two size fields that are not related to the actual lengths (O-1)
 	c := cp.SignedData.GetCertificationData()
 	if c == nil || c.QeReportCertificationData == nil || c.QeReportCertificationData.QeAuthData == nil || c.QeReportCertificationData.PckCertificateChainData == nil {
 		return false
